@@ -129,7 +129,11 @@ Theorem C18_synthetic_injective : forall z1 r1 z2 r2,
 Proof. exact synthetic_injective. Qed.
 Print Assumptions C18_synthetic_injective.
 
-Theorem C18_row_id_real : forall seg zone row st,
-  st <> 0 -> row_id seg zone row false st = st.
-Proof. exact row_id_real. Qed.
-Print Assumptions C18_row_id_real.
+(** Outside the known class [synthetic_row] (id column missing, or stored id zero) every row carries
+    its stored id, hence rows that store different ids are never taken for one event. *)
+Theorem C18_row_ids_outside_known : forall seg1 z1 r1 m1 st1 seg2 z2 r2 m2 st2,
+  synthetic_row m1 st1 = false -> synthetic_row m2 st2 = false ->
+  row_id seg1 z1 r1 m1 st1 = st1 /\ row_id seg2 z2 r2 m2 st2 = st2 /\
+  (st1 <> st2 -> row_id seg1 z1 r1 m1 st1 <> row_id seg2 z2 r2 m2 st2).
+Proof. exact row_ids_outside_known. Qed.
+Print Assumptions C18_row_ids_outside_known.
